@@ -31,6 +31,7 @@ func init() {
 		"rtReach":     rtReach,
 		"rtTag":       rtTag,
 		"rtObserve":   rtObserve,
+		"rtObserveInt": rtObserve,
 		"rtIn":        rtIn,
 		"rtOr":        rtOr,
 		"rtAnd":       rtAnd,
